@@ -359,13 +359,26 @@ func genCase(t *rapid.T) mcase {
 	// still leave them exactly as written)
 	skip := rapid.SampledFrom([]any{nil, nil, false, true, "reason", "false", "no {{matrix}} agents yet", "broken on {{matrix.a}} / {{ matrix.b }}", "{{matrix.os}}"})
 	na := rapid.IntRange(0, 4).Draw(t, "na")
-	if rapid.IntRange(0, 19).Draw(t, "manyadj") == 0 {
+	many := rapid.IntRange(0, 19).Draw(t, "manyadj") == 0
+	if many {
 		na = rapid.IntRange(9, 70).Draw(t, "namany")
+	}
+	// a long list of adjustments each adding a tuple of its own (many more than any backend limit, and
+	// past 64): every one of them counts, wherever it stands
+	longList := !many && len(names) > 0 && rapid.IntRange(0, 14).Draw(t, "longadjlist") == 0
+	if longList {
+		for i, n := 0, rapid.IntRange(40, 140).Draw(t, "nfill"); i < n; i++ {
+			a := adj{With: map[string]string{}, Skip: rapid.SampledFrom([]any{nil, nil, nil, true}).Draw(t, "fillskip")}
+			for _, d := range names {
+				a.With[d] = fmt.Sprintf("fill-%d", i)
+			}
+			c.Adjs = append(c.Adjs, a)
+		}
 	}
 	for i := 0; i < na; i++ {
 		a := adj{With: map[string]string{}, Skip: skip.Draw(t, "skip")}
-		if i > 0 && rapid.IntRange(0, 2).Draw(t, "repeat") == 0 {
-			for d, v := range c.Adjs[rapid.IntRange(0, i-1).Draw(t, "which")].With {
+		if len(c.Adjs) > 0 && i > 0 && rapid.IntRange(0, 2).Draw(t, "repeat") == 0 {
+			for d, v := range c.Adjs[rapid.IntRange(0, len(c.Adjs)-1).Draw(t, "which")].With {
 				a.With[d] = v
 			}
 		} else {
